@@ -572,7 +572,15 @@ class Connection(ExportImport):
             else:
                 self._modified.append(oid)
 
-            p = writer.serialize(obj)  # This calls __getstate__ of obj
+            found = len(writer._stack)
+            try:
+                p = writer.serialize(obj)  # This calls __getstate__ of obj
+            finally:
+                # The new objects found while pickling obj have an oid now,
+                # and so has obj.  If the commit fails before they are
+                # stored, abort must find them to disown them: it looks
+                # in _creating and in the cache.
+                self._file_new_objects(obj, writer._stack[found:])
             if len(p) >= self.large_record_size:
                 warnings.warn(large_object_message % (obj.__class__, len(p)))
 
@@ -622,6 +630,21 @@ class Connection(ExportImport):
                 # savepoint
                 obj._p_changed = 0  # transition from changed to up-to-date
                 obj._p_serial = s
+
+    def _file_new_objects(self, obj, found):
+        if obj._p_oid in self._creating:
+            found = [obj] + found
+        for new in found:
+            oid = new._p_oid
+            self._creating.setdefault(oid, True)
+            if self._cache.get(oid) is None:
+                try:
+                    self._cache[oid] = new
+                except Exception:
+                    # Wrapped?  As in _store_objects, where the object itself
+                    # is stored (and where a real problem is reported).
+                    if hasattr(new, 'aq_base'):
+                        self._cache[oid] = new.aq_base
 
     def tpc_abort(self, transaction):
         transaction = transaction.data(self)
